@@ -27,6 +27,42 @@ PROPS = {
     },
 }
 
+PROPS["C02"] = {
+    "pkg": "c02",
+    "technique": "differential property-based testing against net/netip (grammar + near-miss generators, exhaustive token enumeration) and twin-validator agreement; native fuzzing in the thorough tier",
+    "level_text": ("Differential generated-input search: IsValidIPString / IsValidIPPortString are compared with netip.ParseAddr / ParseAddrPort of the "
+                   "same toolchain, and IsValidHostname(Label) with ValidateHostname(Label), on an exhaustive enumeration of all token sequences up to "
+                   "length 5 (quick) / 7 (thorough) and on grammar-generated IPv4/IPv6/zone/bracket/port texts with 0-2 edits. Any disagreement is a "
+                   "violation, shrunk by rapid. Exploration: strings outside the enumerated alphabet and generated grammar are sampled, not covered."),
+    "level_note": "Trusted: net/netip of the toolchain the repository builds with (go1.24.2) is the reference, as the property states.",
+    "rule": ("IP texts: IPv4 (1-5 fields, boundary values, leading zeros) and IPv6 (0-9 fields, ellipsis anywhere, dotted-quad tails, zones) grammar plus "
+             "0-2 single-character edits; every address text is also tried in 13 address:port spellings; a separate address:port generator; exhaustive "
+             "enumeration of all sequences over 16 tokens. Host names/labels from the name grammar and byte soup. Non-trivial: the reference accepts the "
+             "text, or the text is 1-2 edits away from a reference-accepted text (near-miss), or (host twins) it is domain-valid but hostname-invalid; "
+             "distinct = distinct text per kind."),
+    "assumptions": ["netip.ParseAddr/ParseAddrPort of go1.24.2 define the accepted language"],
+    "expect_classes": {"ip:valid-v6-with-v4-tail": 0.0003, "c02.ip:near-miss": 0.001},
+    "quick": {"scale": 3, "shards": 1, "timeout": 300},
+    "thorough": {"scale": 10, "shards": 16, "timeout": 1500, "fuzz": [("FuzzIP", 45), ("FuzzIPPort", 45), ("FuzzHost", 30)]},
+}
+
+PROPS["C03"] = {
+    "pkg": "c03",
+    "technique": "model-based property testing: generated names (label-class grammar, 63/253 boundary constructors, single-rule breaks, IDN, invalid UTF-8) against an independent byte-level RFC grammar model on top of idna.ToASCII; native fuzzing in the thorough tier",
+    "level_text": ("Generated-input search against an independent reference model of the documented grammar: all three validators must accept exactly "
+                   "what the model accepts, the inclusion chain hostname => SRV => domain must hold on the real functions, and every rejection must be "
+                   "a top-level *AddrError carrying the original input. Label-level validators are compared with the label predicates. Exploration."),
+    "level_note": "Trusted: golang.org/x/net/idna (same version the library uses) is part of the specification, so it is part of the oracle; the rest of the model is written over bytes without calling netutil.",
+    "rule": ("Names: 0-8 labels drawn from label classes (LDH, hyphen placement, '_' service labels of 1-18 bytes, all-digit, 1/62/63/64/65 bytes, empty, IDN, "
+             "xn-- good/bad, bytes > 0x7f, spaces), valid names with 0-2 edits, fill-to-length names with total 250-256 bytes (ASCII and IDN), long "
+             "many-label names, byte soup; plus a deterministic sweep of total length 248-258 x label length 1-64. Non-trivial: valid under at least one "
+             "of the three kinds, or idna.ToASCII succeeds with a non-empty result so that the per-label rules are reached; distinct = distinct text."),
+    "assumptions": ["SRV service labels are limited to 16 bytes including the underscore (the statement's reading that matches RFC 6335 and the code)"],
+    "expect_classes": {"host:label>63": 0.005, "host:too-long": 0.005, "label-len-63": 0.005, "ascii-len-253": 0.002, "srv:valid": 0.01},
+    "quick": {"scale": 1, "shards": 1, "timeout": 300},
+    "thorough": {"scale": 10, "shards": 16, "timeout": 1500, "fuzz": [("FuzzName", 60)]},
+}
+
 ALL_IDS = ["C%02d" % i for i in range(1, 21)]
 NOT_APPLICABLE = [
     {"property_id": pid, "reason": "check not built yet in this revision of the harness (work in progress; see DESIGN.md section 9)"}
